@@ -5,7 +5,7 @@ from .C06 import describe, COMPONENTS
 
 PROP = "C07"
 BUDGET = {"quick": 1200, "thorough": 25000}
-ALARM_S = 1200
+ALARM_S = 400
 RULE = ("as C06 plus target_state subsets and integrator methods; sensitivity, gradient, sensitivityIV and the columns of "
         "jac compared with Richardson-extrapolated central differences of PyGOM's own cost / costIV / residual in the free "
         "variables in the order supplied; non-unit weights only for Square and Normal; non-trivial = a gradient-type call "
